@@ -280,7 +280,7 @@ struct Gen {
 				o.a    = alive_slot(D);
 				o.file = rng.below(NFILE);
 				o.arch = rng.below(3);
-				o.var  = rng.below(2);
+				o.var  = rng.below(3);  // 0 array, 1 view, 2 array re-indexed to base 1
 				break;
 			}
 			case 13: {  // MPI
